@@ -182,6 +182,17 @@ Proof.
   destruct o as [a|]; [|discriminate]. destruct (all_some l) as [e'|] eqn:E; [|discriminate]. inversion Hall; subst. cbn. now rewrite (IH e').
 Qed.
 
+Lemma all_some_map_nth {A B} (f : A -> option B) l : forall r k y, all_some (map f l) = Some r -> nth_error r k = Some y ->
+  exists x, nth_error l k = Some x /\ f x = Some y.
+Proof.
+  induction l as [|x0 l IH]; intros r k y Hall Hk; cbn in Hall.
+  - inversion Hall; subst. destruct k; discriminate.
+  - destruct (f x0) as [y0|] eqn:E0; [|discriminate]. destruct (all_some (map f l)) as [r'|] eqn:Er; [|discriminate].
+    cbn in Hall. inversion Hall; subst. destruct k as [|k']; cbn in Hk.
+    + inversion Hk; subst. exists x0. split; [reflexivity|assumption].
+    + destruct (IH r' k' y eq_refl Hk) as (x & Hx & Hfx). exists x. split; assumption.
+Qed.
+
 Lemma nth_error_map3 {A B C D} (f : A -> B -> C -> D) a : forall b c k x y z,
   nth_error a k = Some x -> nth_error b k = Some y -> nth_error c k = Some z -> nth_error (map3 f a b c) k = Some (f x y z).
 Proof.
@@ -282,6 +293,46 @@ Proof.
   split.
   - exact (scatter_nth (length v) idx _ 0 i0 PInf ENaN (argsort_nodup v) Hlv Hi0 Hv0 Hr0).
   - exact (scatter_nth (length v) idx _ (length v - 1) i1 PInf ENaN (argsort_nodup v) Hlv Hi1 Hv1 Hr1).
+Qed.
+
+Theorem ce_extremes_infinite F m j d : fin_matrix F m -> 0 < m -> length (hd [] F) = m -> j < m ->
+  (exists a b, In a (col (X := E) F j) /\ In b (col (X := E) F j) /\ eltb a b = true) ->
+  calc_crowding_entropy (X := E) feq lg F = Some d ->
+  exists i0 i1, i0 < length F /\ i1 < length F /\
+    (forall i, i < length F -> fle (nth i0 (col (X := E) F j) ENaN) (nth i (col (X := E) F j) ENaN) /\
+                               fle (nth i (col (X := E) F j) ENaN) (nth i1 (col (X := E) F j) ENaN)) /\
+    nth i0 d ENaN = PInf /\ nth i1 d ENaN = PInf.
+Proof.
+  intros HF Hm Hhd Hj Hnc. unfold calc_crowding_entropy. change (T (base E)) with eq in *. rewrite Hhd.
+  destruct (all_some _) as [cols|] eqn:Eall; [|discriminate]. intro H. injection H as <-.
+  destruct (col_fin F m j HF Hj) as [Hcf Hcl].
+  destruct (all_some_map_Forall (fun j0 => ce_col (X := E) feq lg (col (X := E) F j0)) (fun j0 => j0 < m)
+              (fun c => Forall good c /\ length c = length F) (seq 0 m)) with (r := cols) as [Hcols Hlc].
+  { intros j0 c Hj0 Hc. destruct (col_fin F m j0 HF Hj0) as [Hcf0 Hcl0]. destruct (ce_col_good _ _ Hcf0 Hc) as [Hg Hl].
+    split; [assumption|]. change (T (base E)) with eq in *. now rewrite Hl. }
+  { apply Forall_forall. intros j0 Hj0. apply in_seq in Hj0. lia. }
+  { exact Eall. }
+  rewrite seq_length in Hlc.
+  (* the column of objective j *)
+  destruct (nth_error cols j) as [cj|] eqn:Ecj; [|apply nth_error_None in Ecj; assert (Hx : m <= j) by (rewrite <- Hlc; exact Ecj); lia].
+  assert (Hcj : ce_col (X := E) feq lg (col (X := E) F j) = Some cj).
+  { destruct (all_some_map_nth (fun j0 => ce_col (X := E) feq lg (col (X := E) F j0)) (seq 0 m) cols j cj Eall Ecj) as (x & Hx & Hfx).
+    assert (Hxj : x = j). { pose proof (nth_error_nth _ _ 0 Hx) as Hn. rewrite seq_nth in Hn by assumption. now rewrite <- Hn. }
+    now subst x. }
+  destruct (ce_col_extremes _ _ Hcf Hnc Hcj) as (i0 & i1 & H0 & H1 & Hext & Hp0 & Hp1).
+  change (T (base E)) with eq in *. rewrite Hcl in H0, H1, Hext.
+  exists i0, i1. split; [assumption|]. split; [assumption|]. split; [exact Hext|].
+  assert (G : forall i, i < length F -> nth i cj ENaN = PInf -> nth i (map (sum_lr (X := E)) (rows_of (X := E) (length F) cols)) ENaN = PInf).
+  { intros i Hi Hpi.
+    rewrite (nth_indep _ ENaN (sum_lr (X := E) (map (fun c => nth i c ENaN) cols))) by (rewrite map_length; unfold rows_of; rewrite map_length, seq_length; exact Hi).
+    rewrite (map_nth (sum_lr (X := E))). unfold rows_of.
+    rewrite (nth_indep _ _ ((fun i0 => map (fun c => nth i0 c (qnan E)) cols) 0)) by (rewrite map_length, seq_length; exact Hi).
+    rewrite (map_nth (fun i0 => map (fun c => nth i0 c (qnan E)) cols)). rewrite seq_nth by exact Hi. cbn [Nat.add].
+    apply sum_lr_pinf.
+    - apply Forall_forall. intros z Hz. apply in_map_iff in Hz as (c & <- & Hc). rewrite Forall_forall in Hcols.
+      destruct (Hcols c Hc) as [Hg Hl]. rewrite Forall_forall in Hg. apply Hg. apply nth_In. exact (eq_ind_r (fun z => i < z) Hi Hl).
+    - apply in_map_iff. exists cj. split; [exact Hpi|]. eapply nth_error_In; eassumption. }
+  split; apply G; assumption.
 Qed.
 
 End Ce.
